@@ -298,7 +298,7 @@ class Translator:
             s = re.sub(r'(?<![\w\.])%s\b(?!\s*\[__box__\])' % re.escape(b), b + '[0]', s)
         s = s.replace('[__box__]', '')
         s = re.sub(r'\bNULL\b', 'None', s)
-        s = re.sub(r'(\b[A-Za-z_]\w*)\.base\b', r'_base(\1)', s)
+        s = re.sub(r'((?:\b[A-Za-z_]\w*\.)*\b[A-Za-z_]\w*)\.base\b', r'_base(\1)', s)
         return s
 
     def _rewrite_addr(self, s, boxed):
